@@ -42,6 +42,9 @@ var corpus = []string{
 	"{{ strs | json }}{{ m.arr | inspect }}{{ n | type }}{{ 'a b' | url_encode }}",
 	"{% for x in nilv %}x{% else %}empty{% endfor %}{% for x in a limit: 0 %}y{% else %}zero{% endfor %}",
 	"{{ a[0] }}{{ a[-1] }}{{ a[9] }}{{ strs.first }}{{ fixed[1] }}{{ ints | sort | first }}",
+	"{{ ds | json }}{{ ms | json }}{{ ym | json }}{{ ms | inspect }}{{ fixed | json }}",
+	"{% for i in a %}{% if i <= 2 %}le{% endif %}{% if i >= 2 %}ge{% endif %}{% if i < 2 %}lt{% endif %}{% if i > 2 %}gt{% endif %}{% if i == 2 %}eq{% endif %}{% if i != 2 %}ne{% endif %}{% if a contains i %}c{% endif %}{% if i and t or nilv %}b{% endif %}{{ (i..3) | size }}{% endfor %}",
+	"{{ ms | sort_natural: 'k' | map: 'k' | join }}{{ ds | sort | first }}{{ ds | uniq | size }}{{ ds | compact | size }}{{ ds | reverse | last }}{{ ds | concat: ds | size }}",
 	"{{ an | compact | join }}|{{ an | size }}|{{ an | uniq | size }}|{{ an | reverse | first }}|{{ an | concat: a2 | size }}|{{ an | map: 'k' | size }}",
 }
 
